@@ -17,5 +17,5 @@ def run(case, rec):
 
 
 def parts(ctx):
-    return [Part('wire', run, strategy=pyrt.typed_values(subclass=True), n=ctx.n(640, 8000), budget_s=ctx.n(120, 3000)),
-            Part('wire_wild', run, strategy=pyrt.typed_values(wild=True, subclass=True), n=ctx.n(160, 2000), budget_s=ctx.n(60, 1500))]
+    return [Part('wire', run, strategy=pyrt.typed_values(subclass=True), n=ctx.n(1280, 8000), budget_s=ctx.n(120, 3000)),
+            Part('wire_wild', run, strategy=pyrt.typed_values(wild=True, subclass=True), n=ctx.n(320, 2000), budget_s=ctx.n(60, 1500))]
